@@ -212,23 +212,36 @@ func enumerate(thorough bool, emit func(*Case)) {
 	}
 
 	// ---- part "scripts": write-size sequences x read-buffer sequences x copy paths
-	ncore := 6
+	ncore := len(coreCfgs)
 	maxLen := 2
 	if thorough {
-		ncore = len(coreCfgs)
 		maxLen = 3
 	}
 	sq := seqs(writeSizes, maxLen)
+	sq1 := seqs(writeSizes, 1)
 	for _, cc := range coreCfgs[:ncore] {
-		for _, p := range payloadLens(cc.target, thorough) {
-			for _, s := range sq {
-				for _, rd := range readers {
-					for _, wm := range writerModes {
-						if wm == "rfe" && len(s) == 0 {
-							continue // identical to rf
+		reduced := map[int]bool{}
+		for _, p := range payloadLens(cc.target, false) {
+			reduced[p] = true
+		}
+		for _, p := range payloadLens(cc.target, true) {
+			use := sq
+			if !thorough && !reduced[p] {
+				use = sq1 // quick: the other boundary payload lengths with at most one later write
+			}
+			for _, hi := range padVariants(p) {
+				for _, s := range use {
+					for _, rd := range readers {
+						for _, wm := range writerModes {
+							if wm == "rfe" && len(s) == 0 {
+								continue // identical to rf
+							}
+							if !thorough && rd.rm == "r" && len(rd.bufs) == 1 && rd.bufs[0] == 1 && len(s) > 1 {
+								continue // quick: one-byte read buffers only with at most one later write (cost)
+							}
+							d := Dir{WM: wm, Sizes: s, RM: rd.rm, Bufs: rd.bufs}
+							emit(&Case{Part: "scripts", T1: cc.t, Target: cc.target, P: p, PadHi: hi, C2S: cloneDir(d), S2C: cloneDir(d), Cap: 1 << 20})
 						}
-						d := Dir{WM: wm, Sizes: s, RM: rd.rm, Bufs: rd.bufs}
-						emit(&Case{Part: "scripts", T1: cc.t, Target: cc.target, P: p, C2S: cloneDir(d), S2C: cloneDir(d), Cap: 1 << 20})
 					}
 				}
 			}
